@@ -79,9 +79,14 @@ class Ctx:
         return r.returncode, out, r.stderr[-4000:]
 
     # ----- proofs --------------------------------------------------------
-    def proofs(self, files, extra_q=()):
-        """Library build + re-check of the property's Props file(s).  Every theorem is one obligation."""
-        ok, log = coqrun.ensure_built()
+    def proofs(self, files, extra_q=(), targets=()):
+        """Build of the property's part of the library (its Props/Corr files and what they depend on)
+        + re-check of the Props file(s).  Every theorem is one obligation."""
+        tg = [f[:-2] + ".vo" for f in files] + list(targets)
+        corr = os.path.join(os.path.dirname(files[0]), "Corr.v")
+        if os.path.exists(os.path.join(coqrun.COQDIR, corr)):
+            tg.append(corr[:-2] + ".vo")
+        ok, log = coqrun.ensure_built(targets=tg)
         if not ok:
             self.notes.append("library build failed: " + log[-1500:])
         res = coqrun.check_props(files, self.scratch, extra_q=extra_q)
